@@ -247,9 +247,9 @@ def operations():
     op('mQ.mapping.detDF([1,0]i32)', {'mQ'})(lambda P: [P['mQ'].mapping().detDF(Xs, np.array([1, 0], dtype=np.int32))])
     op('mA.mapping.F+invF', {'mA'})(lambda P: [P['mA'].mapping().F(Xs), P['mA'].mapping().invF(P['mA'].mapping().F(Xs), np.arange(2))])
     # ---- operations returning new objects ----------------------------------------------------------------------------
-    op('mA.refined()', {'mA'})(lambda P: [P['mA'].refined().p, P['mA'].refined().t])
-    op('mA.refined([0])', {'mA'})(lambda P: [P['mA'].refined(np.array([0])).p, P['mA'].refined(np.array([0])).t])
-    op('mB.restrict([0,2])', {'mB'})(lambda P: [P['mB'].restrict(np.array([0, 2])).p, P['mB'].restrict(np.array([0, 2])).t])
+    op('mA.refined()', {'mA'})(lambda P: (lambda r: [r.p, r.t])(P['mA'].refined()))
+    op('mA.refined([0])', {'mA'})(lambda P: (lambda r: [r.p, r.t])(P['mA'].refined(np.array([0]))))
+    op('mB.restrict([0,2])', {'mB'})(lambda P: (lambda r: [r.p, r.t])(P['mB'].restrict(np.array([0, 2]))))
     op('mA.with_boundaries', {'mA'})(lambda P: [P['mA'].with_boundaries({'l': lambda x: x[0] < .1}).boundaries['l']])
     op('mT.with_boundaries(new+redefined)', {'mT', 'mT2'})(
         lambda P: [P['mT'].with_boundaries({'b': np.array([2], dtype=np.int32), 'a': np.array([3], dtype=np.int32)}).boundaries['a']])
@@ -257,13 +257,14 @@ def operations():
         lambda P: [P['mT'].with_subdomains({'r': np.array([1, 2], dtype=np.int32)}).subdomains['r']])
     op('mT2.boundaries', {'mT', 'mT2'})(lambda P: [np.asarray(P['mT2'].boundaries['a']), np.array(sorted(len(k) for k in P['mT2'].boundaries))])
     op('mT.restrict+refined', {'mT'})(lambda P: [P['mT'].restrict(np.array([0, 1])).boundaries['a'], P['mT'].refined().boundaries['a']])
-    op('mM.oriented()', {'mM'})(lambda P: [P['mM'].oriented().t, P['mM'].oriented().orientation()])
+    op('mM.oriented()', {'mM'})(lambda P: (lambda o: [o.t, o.orientation()])(P['mM'].oriented()))
     op('mM.assemble(P2)', {'mM', 'eP2', 'lap'})(lambda P: [P['lap'].assemble(fem.CellBasis(P['mM'], P['eP2'])).toarray()])
     op('mM.InteriorFacetBasis(P2).trace', {'mM', 'eP2'})(
         lambda P: _basis_obs(fem.InteriorFacetBasis(P['mM'], P['eP2'], side=1)))
     op('mA.translated', {'mA'})(lambda P: [P['mA'].translated((1., 2.)).p])
-    op('mQ.to_meshtri', {'mQ'})(lambda P: [P['mQ'].to_meshtri().t, P['mQ'].to_meshtri(style='x').p])
-    op('mA.to_dict', {'mA'})(lambda P: [np.array(P['mA'].to_dict()['p']), np.array(P['mA'].to_dict()['t'])])
+    op('mQ.to_meshtri', {'mQ'})(lambda P: [P['mQ'].to_meshtri().t])
+    op("mQ.to_meshtri(style='x')", {'mQ'})(lambda P: [P['mQ'].to_meshtri(style='x').p])
+    op('mA.to_dict', {'mA'})(lambda P: (lambda d: [np.array(d['p']), np.array(d['t'])])(P['mA'].to_dict()))
 
     def save(P):
         d = tempfile.mkdtemp(prefix='c15_', dir='/dev/shm' if os.path.isdir('/dev/shm') else None)
@@ -282,8 +283,8 @@ def operations():
     # ---- boundary condition helpers on pooled systems ----------------------------------------------------------------
     D = np.array([0, 2])
     xx = np.array([1., 2., 3., 4.])
-    op('condense(sys1)', {'sys1'})(lambda P: [condense(*P['sys1'], x=xx, D=D)[0].toarray(), condense(*P['sys1'], x=xx, D=D)[1]])
-    op('enforce(sys1)', {'sys1'})(lambda P: [enforce(*P['sys1'], x=xx, D=D)[0].toarray(), enforce(*P['sys1'], x=xx, D=D)[1]])
+    op('condense(sys1)', {'sys1'})(lambda P: (lambda r: [r[0].toarray(), r[1]])(condense(*P['sys1'], x=xx, D=D)))
+    op('enforce(sys1)', {'sys1'})(lambda P: (lambda r: [r[0].toarray(), r[1]])(enforce(*P['sys1'], x=xx, D=D)))
     op('penalize(sys1)', {'sys1'})(lambda P: [penalize(*P['sys1'], x=xx, D=D, epsilon=1e-8)[0].toarray()])
     # ---- solves with pooled solver objects, two systems of different size ---------------------------------------------
     for sk in ('s_direct', 's_krylov', 's_pcg', 's_cg'):
